@@ -282,7 +282,9 @@ int pthread_cond_signal(pthread_cond_t *c) {
   if (!active()) return real_pthread_cond_signal()(c);
   sim::Harness harness_scope;
   long ci = cond_index(c);
-  wake(K_GATE, 0x20000000 + ci);  // waking all waiters is a legal behaviour of signal (spurious wake-ups)
+  // exactly one waiter, picked by the scheduler (a recorded choice): code that needs notify_all but calls notify_one
+  // must be able to fail; spurious wake-ups are not generated
+  wake_one(K_GATE, 0x20000000 + ci);
   point(K_GATE, 0x20000000 + ci);
   return 0;
 }
